@@ -63,6 +63,10 @@ CHECKS = {
             "Runtime monitor: a contract-respecting delegate hands out uniquely tagged user broadcasts in hostile fill patterns (more than 255 tiny messages, exact fill of the offered limit, equal lengths) and hundreds of membership broadcasts with large metadata are queued; (1) budget: every packet seen at the sender's innermost transport (after label wrapping) is compared with UDPBufferSize; (2) conservation: multiset of messages handed out == multiset delivered to receivers' delegates (real node) or unpacked by the oracle-side codec (fake PMax<5 peer), every packet unpacks without truncation, every member claim packed for the receiver shows up in its event log.",
             "Trusts the loss-free simulated network and, for the fake no-checksum peer only, the oracle-side codec.",
             "wire-size monitor + hand-out/delivery conservation check", "DESIGN.md §3 C11"),
+    "C15": ("E1-simnet (tap on the innermost transport)", "exploration",
+            "Runtime monitor on every buffer a node hands to its transport in encrypted clusters driven through a script that reaches every send site: each packet and each stream write is opened by the oracle-side AES-GCM with the sender's CURRENT primary key and the label (packet) or type|length|label (stream) as associated data, anything else - cleartext, another installed key, missing associated data, a non-encrypt frame - is a violation; a canary scan over names, metadata, user payloads, user state and ack payloads backs it up. The check is inconclusive unless the opened plaintexts cover the message-type x path matrix (18 cells incl. error replies, nacks, TCP fallback ping/ack, both push/pull roles).",
+            "'Every code path' is a structural quantifier: this family shows it only for the send sites the coverage matrix proves were reached. Trusts stdlib AES-GCM and the oracle-side framing.",
+            "transport-tap decryption oracle + canary scan with required send-site coverage", "DESIGN.md §3 C15"),
 }
 
 NOT_YET = "check not built yet in this round (design in DESIGN.md §3); not claimed until its monitor runs clean on the unchanged tree"
@@ -98,7 +102,7 @@ def main():
             "add_only": True,
         },
         "engines": [
-            {"name": "E1-simnet", "path": "harness/simnet.go", "serves_properties": ["C02", "C03", "C04", "C05", "C07", "C08", "C12", "C17"], "kind_free_text": "real Memberlist instances on an in-memory transport inside a testing/synctest bubble (virtual time), with wire tap, fault scripts and fake peers"},
+            {"name": "E1-simnet", "path": "harness/simnet.go", "serves_properties": ["C02", "C03", "C04", "C05", "C07", "C08", "C12", "C15", "C17"], "kind_free_text": "real Memberlist instances on an in-memory transport inside a testing/synctest bubble (virtual time), with wire tap, fault scripts and fake peers"},
             {"name": "E2-model-lockstep", "path": "harness/", "serves_properties": ["C01", "C02", "C06", "C08", "C10", "C11", "C16", "C17", "C18"], "kind_free_text": "PRNG operation sequences against one object with an executable reference model evaluated in lock-step"},
         ],
         "checks": checks,
